@@ -223,7 +223,7 @@ func TestC20(t *testing.T) {
 	for genv.layouts[other.Msg.GetID()] != nil {
 		t.Fatal("id clash in message pick")
 	}
-	nHist := vh.Pick(120, 3000)
+	nHist := vh.Pick(300, 3000)
 	cuts := 0
 	for h := 0; h < nHist; h++ {
 		g := &c20gen{r: vh.Sub(seed, fmt.Sprintf("c20-%d", h)), glist: glist, other: other}
